@@ -255,6 +255,63 @@ theorem C18_diff_exact (a b : List Nat) (k v : Nat) :
 theorem C18_diff_sorted (a b : List Nat) : ((diffSubnets a b).map (·.1)).Pairwise (· < ·) :=
   diffGo_sorted a b 0
 
+/-- the diff is empty exactly when `b` brings nothing new: every entry of `b` is already in `a` at that index -/
+theorem C18_diff_empty_iff (a b : List Nat) :
+    diffSubnets a b = [] ↔ ∀ (k v : Nat), b[k]? = some v → a[k]? = some v := by
+  constructor
+  · intro h k v hb
+    by_cases e : a[k]? = some v
+    · exact e
+    · have := (C18_diff_exact a b k v).mpr ⟨hb, e⟩
+      rw [h] at this; cases this
+  · intro h
+    cases hd : diffSubnets a b with
+    | nil => rfl
+    | cons x xs =>
+      exfalso
+      have hm : (x.1, x.2) ∈ diffSubnets a b := by rw [hd]; simp
+      obtain ⟨h1, h2⟩ := (C18_diff_exact a b x.1 x.2).mp hm
+      exact h2 (h _ _ h1)
+
+/-- a vector shares with itself exactly its active subnets -/
+theorem C18_shared_self_active (a : List Nat) : (sharedSubnets a a 0).length = active a := by
+  unfold sharedSubnets active
+  simp only [if_true]
+  cases a with
+  | nil => simp
+  | cons x xs =>
+    simp only [List.isEmpty_cons, Bool.or_self, Bool.false_eq_true, if_false]
+    -- generalise the scan
+    have key : ∀ (l : List Nat) (i cnt L : Nat), cnt + l.length ≤ L →
+        (sharedGo l l i cnt (some L)).length = (l.filter (· > 0)).length := by
+      intro l
+      induction l with
+      | nil => intro i cnt L _; simp [sharedGo]
+      | cons y ys ih =>
+        intro i cnt L hL
+        unfold sharedGo
+        simp only [List.length_cons] at hL
+        by_cases hy : y = 0
+        · subst hy
+          simp only [or_self, if_true]
+          rw [ih (i + 1) cnt L (by omega)]
+          simp
+        · have hy' : ¬ (y = 0 ∨ y = 0) := by omega
+          simp only [hy', if_false]
+          have hpos : y > 0 := by omega
+          split
+          · rename_i hlim
+            have : L = cnt + 1 := by injection hlim
+            have hys : ys = [] := by
+              cases ys with
+              | nil => rfl
+              | cons z zs => simp at hL; omega
+            subst hys
+            simp [List.filter, hpos]
+          · rw [List.length_cons, ih (i + 1) (cnt + 1) L (by omega)]
+            simp [List.filter, hpos]
+    exact key (x :: xs) 0 0 (x :: xs).length (by simp)
+
 /-- non-vacuity / concrete evaluation: limit 0 = all, limit 1 = the first one, short peer vector cuts the scan -/
 example : sharedSubnets [1,0,1,1,0,7] [1,1,0,1,0,1] 0 = [0,3,5] ∧ sharedSubnets [1,0,1,1,0,7] [1,1,0,1,0,1] 1 = [0] ∧
     sharedSubnets [1,0,1,1,0,7] [1,1,0,1] 0 = [0,3] ∧ sharedSubnets [1,0,1,1,0,7] [1,1,0,1,0,1] (-1) = [0,3,5] ∧
